@@ -13,3 +13,13 @@ void h_dfcc_getnint(void) { cfg_opt_t *o; unsigned i; cfg_opt_getnint(o, i); }
 void h_dfcc_numopts(void) { cfg_opt_t *o; cfg_numopts(o); }
 void h_dfcc_getnopt(void) { cfg_t *c; unsigned i; cfg_getnopt(c, i); }
 void h_dfcc_num(void) { cfg_t *c; cfg_num(c); }
+/* cfg_indent under its loop contract: the output stream is the ghost counter cfgv_blanks */
+#ifdef CFGV_DFCC_INDENT
+_Bool cfgv_badout; FILE *cfgv_fp;
+int fprintf(FILE *fp, const char *fmt, ...)
+{
+	if (fp != cfgv_fp || fmt[0] != ' ' || fmt[1] != ' ' || fmt[2] != 0) cfgv_badout = 1; else cfgv_blanks += 2;
+	return 2;
+}
+void h_dfcc_indent(void) { FILE *fp; int d; cfg_indent(fp, d); }
+#endif
